@@ -56,6 +56,7 @@ func cmdC01(seed uint64, tier, outdir string) {
 		return corpora[thr]
 	}
 	ctxWords := 25 // upper bound of the number of unrelated words between planted copies
+	tailText := ""  // further text after the last planted copy (not a verbatim copy: nothing is claimed about it)
 	run := func(bc *builtCorpus, docs []corpusDoc, label string) {
 		// minimum run length implied by the threshold, as the property states it (4 words at 0.8)
 		q := 10
@@ -96,6 +97,7 @@ func cmdC01(seed uint64, tier, outdir string) {
 			lineOff += strings.Count(txt, "\n")
 			addCtx()
 		}
+		sb.WriteString(tailText)
 		data := []byte(sb.String())
 		res := bc.c.Match(data)
 		cw.printf("%s thr=%v %s\n", label, bc.thr, quoteBytes(data, 300))
@@ -213,8 +215,9 @@ func cmdC01(seed uint64, tier, outdir string) {
 			return strings.Join(ws, " ")
 		}
 		a, sh, own := mk(6+r.intn(10)), mk(25+r.intn(30)), mk(40+r.intn(40))
+		e := mk(40 + r.intn(40))
 		docs := []corpusDoc{{"License", "Nest-A", "a.txt", []byte(a)}, {"License", "Nest-B", "b.txt", []byte(sh + " " + own)},
-			{"License", "Nest-C", "c.txt", []byte(a + " " + sh)}}
+			{"License", "Nest-C", "c.txt", []byte(a + " " + sh)}, {"License", "Nest-E", "e.txt", []byte(e)}}
 		thr := []float64{0.7, 0.8, 0.9, 0.75, 0.85}[r.intn(5)]
 		bc := buildCorpus(thr, docs)
 		ctxWords = 1 + r.intn(4)
@@ -222,6 +225,10 @@ func cmdC01(seed uint64, tier, outdir string) {
 		if r.chance(1, 2) {
 			run(bc, []corpusDoc{docs[0], docs[1], docs[0]}, "nested-close")
 		}
+		// ... followed by an edited copy of a further document: a candidate that sorts after all the others and is kept
+		tailText = string(editWords(r, []byte(e), 1+r.intn(3))) + "\n" + oovBlock(r, 3, 1) + "\n"
+		run(bc, []corpusDoc{docs[0], docs[1]}, "nested-close+edited-tail")
+		tailText = ""
 		ctxWords = 25
 	}
 	vw.close()
@@ -256,15 +263,29 @@ func levWords(a, b []string) int {
 	return prev[len(b)]
 }
 
-func checkC02(c *classifier.Classifier, in []byte, res classifier.Results, maxCells int) string {
-	toks, _ := c.VerifTargetTokens(in)
+// checkC02: the words of the span and of the document are taken from tokenisations with dictionaries of their own
+// (one per text), not through the classifier's dictionary: a defect of the shared id <-> word mapping must not be
+// able to hide itself from the reference distance
+func checkC02(bc *builtCorpus, in []byte, res classifier.Results, maxCells int) string {
+	toks, _ := classifier.VerifTokenize(in, true)
 	for _, m := range res.Matches {
 		if m.MatchType == "Copyright" {
 			continue
 		}
 		key := m.MatchType + "/" + m.Name + "/" + m.Variant
-		K := c.VerifDocWords(key)
-		if K == nil {
+		var K []string
+		found := false
+		for _, d := range bc.docs {
+			if d.cat == m.MatchType && d.name == m.Name && d.variant == m.Variant {
+				kt, _ := classifier.VerifTokenize(d.text, true)
+				K = K[:0]
+				for _, t := range kt {
+					K = append(K, t.Word)
+				}
+				found = true // the last document added under a key is the one in the corpus
+			}
+		}
+		if !found {
 			return "match names a document that is not in the corpus: " + key
 		}
 		if m.StartTokenIndex < 0 || m.EndTokenIndex >= len(toks) || m.StartTokenIndex > m.EndTokenIndex {
@@ -466,7 +487,7 @@ func cmdC0203(seed uint64, tier, outdir string) {
 					}
 				}
 				o := outc{fmt.Sprintf("OK %d", nt), fmt.Sprintf("OK %d", nt)}
-				if v := checkC02(bc.c, in.data, res, maxCells); v != "" {
+				if v := checkC02(bc, in.data, res, maxCells); v != "" {
 					o.c2 = fmt.Sprintf("VIOL - %s: %s", in.name, v)
 				}
 				if v := checkC03(bc.c, bc.thr, in.data, res); v != "" {
@@ -710,6 +731,34 @@ func cmdC10(seed uint64, tier, outdir string) {
 		default:
 			d := small[r.intn(len(small))].text
 			return d[:r.intn(len(d)+1)]
+		}
+	}
+	// every letter whose lower-case form has a different UTF-8 length, literally and as numeric character
+	// references, inside words (buffers sized from the input length are a classic)
+	{
+		c := fullEmbedded().c
+		for _, lr := range lengthChangingRunes {
+			in := []byte(fmt.Sprintf("the x&#%d;y software a&#x%x; %cb is&#%d;&#%d; provided %c%c\n", lr, lr, lr, lr, lr, lr, lr))
+			cw.printf("corpus=full thr=0.8 length-changing U+%04X %s\n", lr, quoteBytes(in, 200))
+			verdict := ""
+			func() {
+				defer func() {
+					if rec := recover(); rec != nil {
+						verdict = fmt.Sprintf("panicked: %v", rec)
+					}
+				}()
+				c.Match(in)
+				c.MatchFrom(bytes.NewReader(in))
+				c.Normalize(in)
+				c2 := classifier.NewClassifier(0.8)
+				c2.AddContent("License", "X", "x.txt", in)
+				c2.Match(in)
+			}()
+			if verdict == "" {
+				vw.printf("OK 1\n")
+			} else {
+				vw.printf("VIOL - letter U+%04X whose lower-case form changes length: %s\n", lr, verdict)
+			}
 		}
 	}
 	for i := 0; i < n; i++ {
